@@ -52,16 +52,39 @@ def _wrap(rng, inner, qs, depth):
     return op
 
 
+def _controlled_subcircuit(rng, qs):
+    """a classically controlled sub-circuit that itself contains classical controls, inside a repeated / prefixed scope"""
+    import cirq
+
+    k1, k2 = rng.choice([("a", "a"), ("a", "b"), ("b", "a")])
+    inner = cirq.FrozenCircuit(rng.choice([cirq.X, cirq.Y ** 0.5])(qs[1]).with_classical_controls(k1), rng.choice([cirq.H, cirq.T])(qs[2]))
+    body_ops = [cirq.Moment(cirq.X(qs[0]) ** 0.5), cirq.Moment(cirq.measure(qs[0], key="a")), cirq.Moment(cirq.measure(qs[2], key="b")),
+                cirq.CircuitOperation(inner).with_classical_controls(k2)]
+    if rng.random() < 0.5:
+        body_ops.append(cirq.Moment(cirq.measure(qs[1], key="c")))
+    op = cirq.CircuitOperation(cirq.FrozenCircuit(body_ops))
+    r = rng.random()
+    if r < 0.4:
+        op = op.repeat(2, use_repetition_ids=True)
+    elif r < 0.7:
+        op = op.with_key_path(("p",))
+    elif r < 0.85:
+        op = op.with_measurement_key_mapping({"a": "z"})
+    if rng.random() < 0.4:
+        op = cirq.CircuitOperation(cirq.FrozenCircuit(cirq.Moment(cirq.measure(qs[1], key="a")), op)).repeat(2, use_repetition_ids=True)
+    return op
+
+
 def standin_subcircuits(tier, seed):
     import cirq
 
     rng = random.Random(seed)
     cases, fails, distinct = 0, [], set()
     qs = list(cirq.LineQubit.range(3))
-    for _ in range(80 if tier == "quick" else 2000):
+    for it in range(80 if tier == "quick" else 2000):
         inner = _inner(rng, qs)
         try:
-            op = _wrap(rng, inner, qs, depth=2)
+            op = _controlled_subcircuit(rng, qs) if it % 4 == 3 else _wrap(rng, inner, qs, depth=2)
             c = cirq.Circuit(cirq.Moment(cirq.H(qs[0])), op)
         except ValueError:
             continue  # a rejected construction (e.g. key collision) is not a wrong answer
@@ -74,15 +97,23 @@ def standin_subcircuits(tier, seed):
             continue
         cases += 1
         distinct.add(repr(c))
-        ref_name, ref = next(iter(flat_variants.items()))
-        try:
-            want = refsim.ref_distribution(ref, qs)
-        except (refsim.ControlBeforeMeasurement, NotImplementedError):
+        want = None
+        for ref_name, ref in list(flat_variants.items()):
+            try:
+                want = refsim.ref_distribution(ref, qs)
+                break
+            except NotImplementedError:
+                flat_variants.pop(ref_name)  # this flattening leaves a controlled sub-circuit in place: not a flat circuit
+            except refsim.ControlBeforeMeasurement:
+                break
+        if want is None:
             continue
         # (1) all flattenings agree with each other
         for name, fc in flat_variants.items():
             try:
                 d = refsim.ref_distribution(fc, qs)
+            except NotImplementedError:
+                continue
             except refsim.ControlBeforeMeasurement as ex:
                 fails.append(dict(args=dict(circuit=repr(c), flattening=name), failed="invalid-flat-circuit", clause=f"{name}: {ex}"))
                 continue
